@@ -106,6 +106,8 @@ class Model:
             return out
         if self.inj is not None:
             self.inj.tick('model')
+        x = list(x)
+        self.log.add('model-batch', [dict(xi) for xi in x])
         outs = []
         for xi in x:
             self.n_calls += 1
